@@ -46,7 +46,7 @@ REQUIRED_COUNTERS = [
     "pfr_rotkh", "rotmeta", "dc_hash", "ahab_srktable", "hab_srktable", "cli", "form_invariance", "order_sensitivity",
     "used_index_invariance", "cb_v1_roundtrip", "cb_v21_roundtrip", "isk_signature", "fresh_process", "leading_zero_keys",
 ]
-CASE_TIMEOUT_S = 900
+CASE_TIMEOUT_S = 1800
 WATCHDOG_S = {"quick": 1500, "thorough": 7200}
 
 RSA_KINDS = ("rsa2048", "rsa3072", "rsa4096")
@@ -472,10 +472,6 @@ def build_paths(ctx, kms: list, rng: random.Random, families_per_type: int, with
             reg = c.registers.find_reg("ROTKH")
             blob = c.export(keys=[_to_pub(v) for v in vals], draw=False)
             field = blob[reg.offset:reg.offset + reg.width // 8]
-            c2 = CMPA(family=fam)
-            c2.parse(blob)
-            if c2.export(draw=False) != blob:
-                ctx.violation("pfr-cmpa/parse-export-changes-blob", {"family": fam})
             return field, None
 
         def pfr_post(h, table, fam=fam):
@@ -1133,7 +1129,7 @@ def run_process(case, ctx) -> None:
         env.update({"PYTHONPATH": core.repo_root(), "SPSDK_CACHE_FOLDER": os.path.join(ctx.workdir, f"proc_cache{k}"),
                     "PYTHONHASHSEED": str(101 + 7 * k), "SPSDK_DEBUG_LOGGING_DISABLED": "1"})
         env.pop(core.GUARD, None)
-        pr = subprocess.run(["/venv/bin/python", sf, jf], env=env, capture_output=True, text=True, timeout=240, check=False, cwd=ctx.workdir)
+        pr = subprocess.run(["/venv/bin/python", sf, jf], env=env, capture_output=True, text=True, timeout=800, check=False, cwd=ctx.workdir)
         line = [ln for ln in pr.stdout.splitlines() if ln.startswith("RESULT ")]
         if pr.returncode != 0 or not line:
             raise core.Inconclusive(f"child interpreter failed rc={pr.returncode}: {pr.stderr[-300:]}")
@@ -1218,7 +1214,7 @@ def selftest(ctx):
 def cases(tier, seed):
     rng = random.Random(f"{seed}/C03/cases")
     thorough = tier == "thorough"
-    forms = 9 if thorough else 3
+    forms = 6 if thorough else 3
     fams = 2 if thorough else 1
     # 1. key sets: every kind, 1..4 keys; all orders for <= 3 keys of a fixed subset, sampled 4-key sets
     for kind in RSA_KINDS + ECC_KINDS:
@@ -1250,7 +1246,7 @@ def cases(tier, seed):
     if thorough:
         lz_specs = lz_specs * 4
     for i, (curve, n, lz) in enumerate(lz_specs):
-        yield {"kind": "lz", "curve": curve, "n": n, "lz": lz, "forms": 9 if thorough else 4, "fams": fams, "cli": i % 2 == 0, "k": i}
+        yield {"kind": "lz", "curve": curve, "n": n, "lz": lz, "forms": 6 if thorough else 4, "fams": fams, "cli": i % 2 == 0, "k": i}
     # 3. certificate block v1: depth x root x used index x count x alignment x construction
     v1 = []
     for kind in RSA_KINDS:
